@@ -72,15 +72,15 @@ CHECKS = {
             "Exploration, exhaustive for all in-range values of the single-byte payloads and the sub-byte bit-fields of every multi-byte payload; wide fields, sequences, keys and addresses are sampled. Oracle: no panic, encoded length == Size() == specification length, decode gives the same command / sequence; McRootKey/McKEKey/McAppSKey/McNetSKey equal the TS005 AES derivations. Known finding K5 (DevVersionReq rejects a following command) is excluded by class with a witness.",
             "Trusted: the width tables in harness/c18/specs_test.go, ref multicast derivations over crypto/aes, the library decoder for the one unexported field nextFirmwareVersion.",
             "DESIGN.md §4 C18"),
-    "C08": ("rapid-generated byte strings (uniform, type-sized, structure-aware mutations of valid frames) + committed corpus replay + native go fuzzing (thorough); base64 text door differential; decode -> re-encode -> decode canonicality oracle",
+    "C08": ("rapid-generated byte strings (uniform, type-sized, structure-aware mutations of valid frames) + committed corpus replay + native go fuzzing (thorough); base64 text door differential; decode -> re-encode -> log -> re-encode -> decode canonicality oracle",
             "Exploration: for every generated input with the reserved MHDR bits zero that the frame decoder accepts, MarshalBinary must succeed and return exactly the input and decoding that again must give a deeply equal frame; nothing is asserted about rejected inputs. The thorough tier adds a bounded coverage-guided campaign on the same oracle (not seed-reproducible; a crasher is saved as the replay file). Known finding K1 is excluded by a predicate on the input bytes and counted.",
             "Trusted: nothing beyond the Go runtime (the oracle is a round trip through the library itself); the wire model is only used to build the valid frames that are mutated.",
             "DESIGN.md §4 C08"),
-    "C09": ("rapid-generated and hand-written hostile inputs per decoder entry point + native go fuzzing of four targets (thorough); totality oracle: no panic, 30 s loop watchdog, input buffer and its spare capacity byte-identical afterwards",
+    "C09": ("rapid-generated and hand-written hostile inputs per decoder entry point + native go fuzzing of four targets (thorough); totality oracle: no panic, 30 s loop watchdog plus a heap ceiling for loops that allocate, input buffer and its spare capacity byte-identical afterwards",
             "Exploration: the frame decode / command decode / decrypt chain (binary and base64), every exported type with UnmarshalBinary in the five packages (both directions, lengths drawn from each type's accepted lengths), json.Unmarshal into the backend payloads from structure-aware hostile JSON, and the text / Scan decoders are executed on generated inputs; a panic, a watchdog hit, or a write to the input buffer or behind it is a violation. Linear time is approximated by the loop watchdog, the bound (decoded items <= input bytes) and an allocation-growth check (8-fold input may allocate at most 24-fold) on the stream decoders.",
             "Trusted: the watchdog bound (30 s for inputs <= 600 bytes, six orders of magnitude above the observed cost); a driver time-out is reported as inconclusive, never as a violation.",
             "DESIGN.md §4 C09"),
-    "C10": ("rapid-generated aliasing / guard-byte / read-only / reuse-differential / band-instance checks over every decoder type, plus generated multi-goroutine op lists under the race detector",
+    "C10": ("rapid-generated aliasing / guard-byte / read-only / reuse-differential (binary, text, JSON and database doors) / band-instance checks over every decoder type, plus a first-use phase and generated multi-goroutine op lists under the race detector",
             "Exploration: (1) overwrite the input buffer (and encoder output) after decoding and re-observe the value; (2) guard bytes in front of and spare capacity behind every slice handed to the crypto functions and frame methods; (3) deep comparison with an untouched twin after every Validate*/Marshal*; (4) decode b1 then b2 into one value vs. b2 into a fresh one for each decoder type, and two GetConfig instances under a mutation history of one; (5) -race build: 2..8 goroutines run generated op lists (decode, MIC, crypto, registry lookups and registrations, band objects) whose results must equal a solo run, and any race-detector report is a violation. Schedules are sampled, not controlled: the race detector generalises over timing only for accesses that execute.",
             "Trusted: the Go race detector; observation of values through re-encoding, JSON and a deep printer (an unexported field that none of these shows would be invisible).",
             "DESIGN.md §4 C10"),
